@@ -352,7 +352,7 @@ class State:
 
     def with_effect(self, e):
         s = self.copy()
-        s.effects = self.effects + (e,)
+        s.effects = self.effects + (tuple(e) + (('@g', len(self.guards)),),)
         return s
 
 
@@ -749,7 +749,7 @@ class SX:
             mangled = self.model.mangle(frame['cls'] or obj.cls, attr)
             s = st.copy()
             s.heap[(obj.path, mangled)] = value
-            s.effects = s.effects + (('store', obj.path, mangled, value, lineno, frame['fn'].name),)
+            s.effects = s.effects + (('store', obj.path, mangled, value, lineno, frame['fn'].name, ('@g', len(s.guards))),)
             return [Outcome(s, 'fall')]
         if isinstance(obj, Ov):
             res = []
@@ -760,7 +760,7 @@ class SX:
                 # a store through a symbolic index may alias any other indexed access of the same attribute
                 s.heap = {k: v for k, v in s.heap.items() if not (k[1] == attr and '[' in k[0] and k[0] != obj.path)}
             s.heap[(obj.path, attr)] = value
-            s.effects = s.effects + (('store', obj.path, attr, value, lineno, frame['fn'].name),)
+            s.effects = s.effects + (('store', obj.path, attr, value, lineno, frame['fn'].name, ('@g', len(s.guards))),)
             res.append(Outcome(s, 'fall'))
             return res
         raise CannotDecide(f'store to attribute {attr} of {obj!r}')
@@ -1618,8 +1618,19 @@ class SX:
                      else N(self.ctx.call('abs', self.num_arg(v)), getattr(v, 'py', None)))]
         if name in ('sqrt', 'atan', 'sin', 'cos', 'tan', 'asin', 'acos', 'exp', 'log'):
             return [(st, N(self.ctx.call(name, self.num_arg(args[0])), 'float'))]
-        if name in ('float', 'int') and len(args) == 1 and isinstance(args[0], (N, Dyn)):
+        if name == 'float' and len(args) == 1 and isinstance(args[0], (N, Dyn)):
             return [(st, N(args[0].term, name))]
+        if name == 'int' and len(args) == 1 and isinstance(args[0], (N, Dyn)):
+            if isinstance(args[0], N) and (args[0].py == 'int' or args[0].term.is_const()
+                                           or all(a.startswith('call:round') or a.startswith('call:int') or a == 'n'
+                                                  for a in args[0].term.atoms())):
+                return [(st, N(args[0].term, 'int'))]
+            # truncation of a real value is not the identity: keep it as an opaque function
+            return [(st, N(Rat.atom(self.ctx.fatom('call:int', (args[0].term,))), 'int'))]
+        if name in ('round', 'rint', 'around') and len(args) == 1 and isinstance(args[0], (N, Dyn)):
+            return [(st, N(Rat.atom(self.ctx.fatom('call:round', (args[0].term,))), 'int'))]
+        if name in ('floor', 'ceil', 'trunc') and len(args) == 1 and isinstance(args[0], (N, Dyn)):
+            return [(st, N(Rat.atom(self.ctx.fatom('call:' + name, (args[0].term,))), 'int'))]
         if name in ('min', 'max') and len(args) >= 2:
             if all(isinstance(a, Q) for a in args):
                 units = {a.unit.key() if a.unit else None for a in args}
@@ -1844,3 +1855,11 @@ def _as_load(t):
 
 def guards_of(state: State):
     return list(state.guards)
+
+
+def guards_at(effect, path_guards):
+    """the prefix of the path's guards that had been decided when the effect happened"""
+    last = effect[-1]
+    if isinstance(last, tuple) and len(last) == 2 and last[0] == '@g':
+        return tuple(path_guards[:last[1]])
+    return tuple(path_guards)
